@@ -129,7 +129,23 @@ static Outcome run_one(const Case &c) {
   size_t len = (size_t)std::min<int64_t>(std::max<int64_t>(A(0), 0), 1 << 21);
   uint64_t seed = (uint64_t)A(1);
   int align = (int)(A(2) & 15);
+  // message contents: mostly pseudo-random; sometimes all 0x00 / all 0xff / pseudo-random with runs of 8..40 equal bytes (0x00, 0xff, 0x80) dropped in
   std::string data = prbytes(seed, len);
+  {
+    unsigned sel = (unsigned)((seed >> 7) % 10);
+    if (sel == 0) data.assign(len, '\0');
+    else if (sel == 1) data.assign(len, '\xff');
+    else if (sel <= 4 && len >= 16) {
+      std::string r = prbytes(seed ^ 0xabcdef, 64);
+      size_t nruns = 1 + (unsigned char)r[0] % 6;
+      for (size_t i = 0; i < nruns; i++) {
+        size_t off = ((size_t)(unsigned char)r[1 + 4 * i] * 256 + (unsigned char)r[2 + 4 * i]) % len;
+        size_t n = std::min<size_t>(8 + (unsigned char)r[3 + 4 * i] % 33, len - off);
+        static const char V[3] = {'\0', '\xff', '\x80'};
+        memset(&data[off], V[(unsigned char)r[4 + 4 * i] % 3], n);
+      }
+    }
+  }
   char m[400];
   std::set<int> pathsrun;
   if (op.k == "sha" || op.k == "hmac") {
